@@ -854,7 +854,8 @@ def _group_func_wrap(
             counts,
         )
 
-    if orig_type.kind in "mM":
+    if orig_type.kind in "mM" and not counting:
+        # counts of temporal values are plain integers
         result = result.astype(orig_type)
 
     if return_count:
